@@ -3,9 +3,9 @@ package main
 func init() { registry["C09"] = checkC09 }
 
 func checkC09(e *RunEnv) *CheckResult {
-	paths := []string{"d/x", "d/y", "ad/x", "d.c", "a(b", "g", "d0"}
-	args := []string{"d/x", "d/y", "ad/x", "d.c", "a(b", "g", "d0", "d", "ad", "nope", "d/nope", "d/", "./d", "d/.", "./g", "d//x"}
-	pairs := [][]string{{"d/x", "ad/x"}, {"d", "g"}, {"g", "nope"}, {"nope", "g"}}
+	paths := []string{"d/x", "d/y", "ad/x", "d.c", "a(b", "g", "d0", "n"}
+	args := []string{"d/x", "d/y", "ad/x", "d.c", "a(b", "g", "d0", "n", "d", "ad", "nope", "d/nope", "d/", "./d", "d/.", "./g", "d//x"}
+	pairs := [][]string{{"d/x", "ad/x"}, {"d", "g"}, {"g", "nope"}, {"nope", "g"}, {"g", "n"}, {"d/y", "d"}}
 	var base []Step
 	base = append(base, seedS0()...)
 	for _, p := range paths {
